@@ -83,6 +83,22 @@ int main(int argc, char **argv) {
     items.push_back({"far:table" + std::to_string(T), a, true, {""}});
   }
   items.insert(items.begin(), Item{"regs-from-reset", "BR start\nDATA 1000\nstart\nBRZ za\nBR bad\nza\nOPR ADD\nBRZ zb\nBR bad\nzb\nOPR SUB\nBRN bad\nBRZ good\nbad\nLDAC 9\nLDBM 1\nSTAI 2\nLDAC 0\nOPR SVC\ngood\nLDAC 4\nLDBM 1\nSTAI 2\nLDAC 0\nOPR SVC\n", true, {""}});
+  // the very first instruction after reset is something other than BR: each of these relies on a different piece of reset state (areg = 0, breg = 0, flags, memory port)
+  {
+    const char *EXIT1 = "LDAC 1\nLDBM 1\nSTAI 2\nLDAC 0\nOPR SVC\n", *EXIT3 = "LDAC 3\nLDBM 1\nSTAI 2\nLDAC 0\nOPR SVC\n", *EXITA = "LDBM 1\nSTAI 2\nLDAC 0\nOPR SVC\n";
+    std::vector<std::pair<std::string, std::string>> firsts = {
+      {"BRZ", std::string("BRZ hop\nBR fall\nDATA 1000\nhop\n") + EXIT1 + "fall\n" + EXIT3},
+      {"BRN", std::string("BRN hop\nBR fall\nDATA 1000\nhop\n") + EXIT1 + "fall\n" + EXIT3},
+      {"ADD", std::string("OPR ADD\nBR s\nDATA 1000\ns\n") + EXITA},
+      {"SUB", std::string("OPR SUB\nBR s\nDATA 1000\ns\n") + EXITA},
+      {"LDAI", std::string("LDAI 1\nBR s\nDATA 1000\ns\n") + EXITA},
+      {"LDBI", std::string("LDBI 1\nBR s\nDATA 1000\ns\nLDAC 0\nOPR ADD\n") + EXITA},
+      {"STAM", std::string("STAM 3\nBR s\nDATA 1000\nDATA 77\ns\nLDAM 3\n") + EXITA},
+      {"STAI", std::string("STAI 3\nBR s\nDATA 1000\nDATA 77\ns\nLDAM 3\n") + EXITA},
+      {"LDAP", std::string("LDAP s\nBR s\nDATA 1000\ns\n") + EXITA},
+      {"PFIX-BRZ", std::string("BRZ hop\nDATA 1000\n") + EXIT3 + std::string(40, ' ') + "\nLDAC 0\nLDAC 0\nLDAC 0\nLDAC 0\nLDAC 0\nLDAC 0\nLDAC 0\nLDAC 0\nLDAC 0\nhop\n" + EXIT1}};
+    for (auto &f : firsts) items.insert(items.begin(), Item{"first-instruction:" + f.first, f.second, true, {""}});
+  }
   // stores into the word that is being executed, then runs on into the modified bytes (word 3 = LDAM 2; STAM 3; LDAC 7; LDBM 1 is overwritten by word 2 = same with LDAC 9)
   items.insert(items.begin(), Item{"self-modifying", "BR start\nDATA 1000\nDATA 288957186\nstart\nLDAM 2\nSTAM 3\nLDAC 7\nLDBM 1\nSTAI 2\nLDAC 0\nOPR SVC\n", true, {""}});
   // system-call sequences: every sequence of <=2 (thorough: <=3) items over {write x1..x3 back to back, read x1..x3 back to back, copy the last read byte into the character slot,
